@@ -11,6 +11,8 @@ def be(v, n):
 def in_range(cls, f, v):
     if f['n'] == 'sampleDt':
         return v in (0, 1)
+    if f['n'] == 'segMask':
+        return v in (0, 3)
     if cls == 'packet' and f['n'] == 'segmentType':
         return v < 4
     return True
@@ -87,6 +89,8 @@ def chains(table, seed, tier, prefix='m'):
                 v = rng.choice([0, (1 << w) - 1, rng.getrandbits(w), rng.getrandbits(w)])
                 if not in_range(cls, f, v):
                     v = v & 1
+                if f['n'] == 'segMask':
+                    v = 3 * (v & 1)
                 ops.append({'op': 'set', 'cls': cls, 'f': f['n'], 'v': be(v, (w + 7) // 8)})
             yield {'id': '%s%d' % (prefix, n), 'comp': 'obj', 'ops': ops}
             n += 1
@@ -100,6 +104,17 @@ def chains(table, seed, tier, prefix='m'):
                 ops.append({'op': 'set', 'cls': cls, 'f': f['n'], 'v': [v]})
             yield {'id': '%s%d' % (prefix, n), 'comp': 'obj', 'ops': ops}
             n += 1
+    # the two-bit mask flag from every state of its two bits (round7b-3: "already has the requested value")
+    for cls in sorted(table):
+        if any(f['n'] == 'segMask' for f in settable(table, cls)):
+            for kind in ('zeros', 'ones', 'random'):
+                ops = [{'op': 'load', 'cls': cls, 'raw': fix_background(cls, background(rng, table[cls]['size'], kind))}]
+                for fl in (0x04, 0x08, 0x0C, 0x00, 0xF7, 0xFB):
+                    for v in (3, 0):
+                        ops.append({'op': 'set', 'cls': cls, 'f': 'commonFlags', 'v': [fl]})
+                        ops.append({'op': 'set', 'cls': cls, 'f': 'segMask', 'v': [v]})
+                yield {'id': '%s%d' % (prefix, n), 'comp': 'obj', 'ops': ops}
+                n += 1
     for cls in sorted(table):
         yield {'id': '%sn%s' % (prefix, cls), 'comp': 'obj', 'ops': [{'op': 'new', 'cls': cls}]}
 
@@ -185,6 +200,8 @@ def builds(table, seed, tier, prefix='b'):
                     v = rng.getrandbits(f['w'])
                     if not in_range(cls, f, v):
                         v &= 1
+                    if f['n'] == 'segMask':
+                        v = 3 * (v & 1)
                     ops.append({'op': 'set', 'cls': cls, 'f': f['n'], 'v': be(v, (f['w'] + 7) // 8)})
                 a = build_args(rng, cls, tier)
                 a['op'] = 'setData'
